@@ -221,7 +221,7 @@ def check(case, ctx):
             raise Violation('completeness:printer:resources', {'headers': headers, 'expected': exp_names, 'tables': len(tables),
                                                                'program': prog, 'at': p})
         for text, n, exp, rd in zip(tables, exp_counts, pos_rows, pos_desc['resources']):
-            idx = [int(m.group(1)) for m in re.finditer(r'^\s*(\d+)\s', text, re.M)]
+            idx = [int(m.group(1)) for m in re.finditer(r'^\s*(\d+)(?:\s|$)', text, re.M)]
             last = max(idx) if idx else 0
             if last != n:
                 raise Violation('completeness:printer:last-row-index', {'last_printed': last, 'rows': n, 'program': prog, 'at': p})
